@@ -272,6 +272,42 @@ def _tasks(L, alpha_kind, init_enum, min_len, subcheck_max):
 
 
 # ---------------------------------------------------------------------------
+# audit of the reference model against gcc: the histories are valid C
+# ---------------------------------------------------------------------------
+def _gcc_audit(texts):
+    import subprocess
+
+    bad = []
+    for t in texts:
+        p = subprocess.run(["gcc", "-std=c11", "-fsyntax-only", "-w", "-x", "c", "-"],
+                           input=t.encode(), capture_output=True)
+        if p.returncode != 0:
+            bad.append((t, p.stderr.decode(errors="replace")[:300]))
+    return len(texts), bad
+
+
+def _audit_programs(L, alpha_kind, init_enum):
+    alpha = S.alphabet(alpha_kind, init_enum)
+    out = []
+    frontier = [((), S.INITIAL)]
+    for _ in range(L):
+        nf = []
+        for h, st in frontier:
+            for ev in alpha:
+                s2 = S.apply(st, ev)
+                if s2 is not None:
+                    nf.append((h + (ev,), s2))
+                    out.append(S.program(h + (ev,), s2, ""))
+                # the sub-check's label spelled like a visible typedef name
+                if ev[0] == "label" and s2 is None:
+                    s3 = S.apply(st, ev, typedef_labels=True)
+                    if s3 is not None:
+                        out.append(S.program(h + (ev,), s3, ""))
+        frontier = nf
+    return out
+
+
+# ---------------------------------------------------------------------------
 def run(tier):
     R = core.Run(PID, tier, "model_checking")
     quick = tier == "quick"
@@ -315,6 +351,16 @@ def run(tier):
     for i, k in enumerate(R._known):
         if k.get("status") == "open" and i in R.known_hits:
             R.known_hits[i] = sum(tot.get("fail:" + s, 0) for s in k["signatures"]) or R.known_hits[i]
+
+    # model audit: gcc accepts every history (no probes: they use undeclared x)
+    audit = _audit_programs(2 if quick else 3, "full", not quick)
+    n_aud = 0
+    for n, bad in core.pmap(_gcc_audit, core.chunked(audit, 40), chunksize=1):
+        n_aud += n
+        for t, err in bad:
+            R.fail("model-audit:gcc-rejects-history", {"text": t, "kind": "history"}, err)
+    R.set("model_audit", {"histories_accepted_by_gcc": n_aud, "what": "every history of <= %d events (full alphabet, plus typedef-named labels) "
+                          "compiled with gcc -std=c11 -fsyntax-only" % (2 if quick else 3)})
 
     probes = tot.get("probes", 0)
     R.set("states", len(states))
